@@ -101,3 +101,33 @@ package utils
 //@   ensures [nonEmptyYieldsJob] !old(orderEmpty(jo)) ==> result != nil
 //@ end
 // ---- end exec ----
+
+// ---- frame contracts requested by the solver/allocate units (actions/common) ------------------------------
+// NewJobsOrderByQueues builds the order value (two fresh empty maps, the given session and options): executed in callers.
+//@ func NewJobsOrderByQueues
+//@   inline
+//@ end
+
+// A job is "pending" iff it has at least one Pending task; the result is a fresh map keyed by job UID.
+//@ func GetAllPendingJobs
+//@   props C05
+//@   requires ssn != nil && ssn.ClusterInfo != nil
+//@   requires forall k in ssn.ClusterInfo.PodGroupInfos :: ssn.ClusterInfo.PodGroupInfos[k] != nil
+//@   requires allocated(ssn.ClusterInfo.PodGroupInfos)
+//@   fresh
+//@   loop 1
+//@     invariant pendingJobs != ssn.ClusterInfo.PodGroupInfos && (forall k in ssn.ClusterInfo.PodGroupInfos :: ssn.ClusterInfo.PodGroupInfos[k] != nil)
+//@     invariant forall u in pendingJobs :: memberOf(ssn.ClusterInfo.PodGroupInfos, pendingJobs[u]) && pendingJobs[u].UID == u && len(pendingJobs[u].PodStatusIndex[pod_status.Pending]) > 0
+//@   ensures [onlyPendingSessionJobs] forall u in result :: memberOf(ssn.ClusterInfo.PodGroupInfos, result[u]) && result[u].UID == u && len(result[u].PodStatusIndex[pod_status.Pending]) > 0
+//@ end
+
+// Eviction message: string formatting plus the Session.Queue*Resources plugin callbacks (func-valued slices of
+// plugin closures: outside the subset). Assumed: whatever it touches, it neither appends to nor rewrites any
+// Statement log and no reverse operation fails inside it.
+//@ func GetMessageOfEviction
+//@   props C06 C13
+//@   trusted
+//@   note message formatting + calls through registered plugin callbacks (QueueAllocatedResources/QueueDeservedResources/QueueFairShare); assumed not to touch statement logs (framework.logsSame) nor the reverse-failure counter
+//@   modifies *
+//@   ensures framework.logsSame() && framework.reverseFailures() == old(framework.reverseFailures())
+//@ end
